@@ -55,8 +55,9 @@ def run(seed=0, tier="quick"):
     reqs, expect, metas = [], [], []
     for ci, (dim, shape) in enumerate(cfgs):
         r = impl.rng(seed, "fd", ci)
-        dx = float(r.uniform(0.05, 0.5))
+        dx = float(r.uniform(0.05, 0.5)) if ci % 2 else [0.125, 0.0625, 0.5][ci % 3]
         real_t = np.float64
+        make(dim, shape, np.float32(dx), np.float32)   # a solver of the other precision, same sizes and spacing, exists already
         s = make(dim, shape, dx, real_t)
         axes, inv = eigen_data(s, dim)
         meta = {"dim": dim, "grid": list(shape), "dx": dx}
